@@ -114,10 +114,13 @@ func (g *gapi[T]) New() unsafe.Pointer {
 	return unsafe.Pointer(new(T))
 }
 func (g *gapi[T]) NewSlab(n int) []unsafe.Pointer {
-	arr := make([]T, n)
+	// two spare elements on either side: a library that writes a little beyond
+	// an object (a wide read-modify-write) must hit array elements, whose
+	// position is part of the plan, not whatever the heap put next to the array
+	arr := make([]T, n+4)
 	out := make([]unsafe.Pointer, n)
-	for i := range arr {
-		out[i] = unsafe.Pointer(&arr[i])
+	for i := range out {
+		out[i] = unsafe.Pointer(&arr[i+2])
 	}
 	return out
 }
